@@ -95,3 +95,17 @@ Theorem C03_parsed_attribute_names_safe : forall space_table punct_table fuel r 
   Forall (fun a => attr_name_ok (fst a) = true /\ pval_names_ok (snd a)) attrs.
 Proof. exact parse_attributes_names_ok. Qed.
 Print Assumptions C03_parsed_attribute_names_safe.
+
+(* ---------------- the same end to end with extension.GFM (tables, strikethrough, task lists,
+   linkify on top of the default parser): model/GfmI.v, the parser's output checked with wf_tree
+   (model/GfmChecked.v), compared with goldmark.Convert under extension.GFM on every run (case
+   kinds ParseTreeGfm, ConvertGfm, ParseTreeX).  For every source and every subset xc of the
+   four extensions: whatever safe-mode conversion returns is inert *)
+Require Import GM.model.InlineParseX GM.model.GfmI GM.model.GfmChecked GM.proofs.GfmCheckedProofs.
+Theorem C03_convert_gfm_safe_inert : forall xc c src o, unsafe c = false -> ConvertModelXC xc c src = Ok o -> Inert o.
+Proof. exact ConvertModelXC_safe_inert. Qed.
+Print Assumptions C03_convert_gfm_safe_inert.
+Theorem C03_convert_gfm_safe_inert_xhtml : forall xc c src o, unsafe c = false -> xhtml c = true ->
+  ConvertModelXC xc c src = Ok o -> InertX o.
+Proof. exact ConvertModelXC_safe_inert_xhtml. Qed.
+Print Assumptions C03_convert_gfm_safe_inert_xhtml.
